@@ -167,8 +167,7 @@ func (w *websocket) send(packets []*packet.Packet) {
 					}
 					return
 				}
-				return
-
+				continue
 			}
 		}
 
